@@ -1,3 +1,4 @@
+import ast
 from ast import Attribute, Subscript, Load, NodeVisitor, Name
 
 from .compat import PY2
@@ -92,8 +93,20 @@ class extract_visitor(NodeVisitor):
                     name.flow = self.flow  # type: ignore[attr-defined]
                     self.flow.add_name(AssignedName(name.id, eend, np(name), node.value))
 
-        for targets in node.targets:
-            self.visit(targets)
+        self.visit_targets(node.targets)
+
+    def visit_targets(self, targets):
+        # type: (list[ast.AST]) -> None
+        """Targets are assigned left to right after the value is known
+
+        What they read (a, d[a] = 1, 2; x: x = 5) comes after the names of
+        the statement are bound, wherever it stands in the text."""
+        if any(type(n.ctx) is Load for t in targets for n in ast.walk(t)
+               if isinstance(n, Name)):
+            self.flow = self.make_flow('targets', [self.flow])
+            self.flow.scope.flow = self.flow
+        for t in targets:
+            self.visit(t)
 
     def visit_AnnAssign(self, node):
         # type: (ast.AnnAssign) -> None
@@ -113,8 +126,7 @@ class extract_visitor(NodeVisitor):
         elif node.value:
             name.flow = self.flow  # type: ignore[attr-defined]
             self.flow.add_name(AssignedName(name.id, eend, np(name), node.value))
-        self.visit(node.target)
-        self.visit(node.annotation)
+        self.visit_targets([node.target, node.annotation])
 
     def make_local(self, target):
         # type: (ast.AST) -> None
